@@ -141,6 +141,9 @@ def run_job(job, workdir, want_trace=True):
     c = os.path.join(d, 'unit.c')
     with open(c, 'w') as f:
         f.write(job.c_source)
+        if job.replace:
+            # keep the symbols of contract-only callees alive even when the extracted body no longer calls them
+            f.write('\nvoid vf_keep_symbols(void) { void* vf_p; %s }\n' % ' '.join('vf_p = (void*)&%s;' % g for g in job.replace))
     r.c_path = c
     src_lines = job.c_source.split('\n')
     defs = ['-D%s=%s' % (k, v) for k, v in job.defines.items()]
@@ -169,7 +172,7 @@ def run_job(job, workdir, want_trace=True):
             return r
     else:
         b = a
-    base = ['cbmc', b, '--bounds-check', '--pointer-check', '--div-by-zero-check', '--json-ui'] + job.cbmc_flags
+    base = ['cbmc', b, '--bounds-check', '--pointer-check', '--div-by-zero-check', '--object-bits', '12', '--json-ui'] + job.cbmc_flags
     if job.unwind is not None:
         base += ['--unwind', str(job.unwind), '--unwinding-assertions']
     r.cmds.append(' '.join(base))
@@ -209,6 +212,10 @@ def run_job(job, workdir, want_trace=True):
             r.failed.append(ob)
     if not r.obligations:
         r.reason = 'vacuous: zero obligations generated'
+    elif any(o.desc.startswith('SHAPE:') for o in r.failed):
+        # the code changed the *shape* of an algorithm the ghost model relies on: undecided, never a violation
+        r.reason = 'shape guard: ' + '; '.join(o.desc for o in r.failed if o.desc.startswith('SHAPE:'))[:300]
+        r.failed = []
     elif r.failed:
         r.status = 'failed'      # a counterexample outranks every vacuity guard
     elif r.canaries_hit < job.canaries:
